@@ -66,7 +66,9 @@ structure CodeLaws (ops : HeapOps H) where
   maybePut_val : ∀ h v, Val (ops.maybePut h v).2
   newCont_val : ∀ h c, Val (ops.newCont h c).2
   makeClosure_val : ∀ {h h' lam ep bp st c}, ops.makeClosure h lam ep bp st = .ok (h', c) → Val c
-  vectorPush_val : ∀ {h h' vec v}, ops.vectorPush h vec v = .ok h' → Val vec
+  /-- VPUSH leaves the popped cell `d` in `acc` (fix 43d0413): a push through `deref d` succeeds only when `d` is a
+      value (a non-pointer is its own dereference, and `vectorPush` rejects what is not a vector) -/
+  vectorPush_val : ∀ {h h' d v}, ops.vectorPush h (ops.deref h d) v = .ok h' → Val d
   globGet_val : ∀ h n, Val (ops.globGet h n)
   envGet_val : ∀ {h e k v}, ops.envGet h e k = some v → (∀ e' k', v ≠ .lexEnvPtr e' k') → Val v
   envGet_val2 : ∀ {h e k e' k' w}, ops.envGet h e k = some (.lexEnvPtr e' k') → ops.envGet h e' k' = some w → Val w
